@@ -12,7 +12,7 @@ INSPECTIONS = ['has_data', 'data_path', 'run_info', 'log', 'tasks_df', 'readable
 
 # --------------------------------------------------------------------------------------------- generation
 
-def gen_family(rng, n_classes=None, kinds=None, n_variants=None, rich=False):
+def gen_family(rng, n_classes=None, kinds=None, n_variants=None, rich=False, ns_pool=None, double_p=0.6):
     """classes + several config variants (same pipeline, parameter values equal or different at random places,
     mounted under different namespaces or none)"""
     modname = gen.fresh_modname()
@@ -27,7 +27,7 @@ def gen_family(rng, n_classes=None, kinds=None, n_variants=None, rich=False):
         if v > 0 and keys:
             for k in rng.sample(keys, rng.randint(0, min(2, len(keys)))):
                 data[k] = gen.gen_value(rng, 1, 2, gen.SAFE, gen.SAFE)
-        ns = rng.choice([None, None, 'n', 'm::k', 'm::k', 'z::n'])
+        ns = rng.choice(ns_pool or [None, None, 'n', 'm::k', 'm::k', 'z::n'])
         if rng.random() < 0.2:
             # a namespace that is a textual prefix of the name of a task used as input (`mo` / `model:fit`): not the same as being inside it
             refd = sorted({gen.slug_of(classes[i_['ref']], modname) if i_['by'] == 'class' else i_['ref'] for c in classes.values() for i_ in c['inputs']
@@ -51,7 +51,7 @@ def gen_family(rng, n_classes=None, kinds=None, n_variants=None, rich=False):
         files[v['file']] = v['data']
         uses = ['@cfg/' + v['file'] + (f' as {v["ns"]}' if v['ns'] else '')]
         v['context'] = None
-        if rich and keys and rng.random() < 0.6:
+        if rich and keys and rng.random() < double_p:
             # the same file mounted a second time under another namespace, with per-namespace context values
             ns2 = rng.choice(['z', 'n2', 'm', 'train', 'n', 'na'])
             if ns2 != v['ns']:
@@ -203,6 +203,13 @@ def gen_ops(rng, spec, variants, length, allow):
             ops.append(op)
         else:
             ops.append({'op': 'inspect', 'chain': rng.choice(live), 'task': rng.choice(slugs), 'what': rng.choice(INSPECTIONS), 'pick': rng.randrange(4)})
+    # directed: compute, force (keeping the stored result), drop the value held in memory, ask again — the task is still forced
+    if 'force' in allow and live and rng.random() < 0.35:
+        c, sl, pk = rng.choice(live), rng.choice(slugs), rng.randrange(4)
+        ops += [{'op': 'value', 'chain': c, 'task': sl, 'failing': [], 'pick': pk},
+                {'op': 'force', 'chain': c, 'task': sl, 'del': False, 'pick': pk},
+                {'op': 'reset', 'chain': c, 'task': sl, 'pick': pk},
+                {'op': 'value', 'chain': c, 'task': sl, 'failing': [], 'pick': pk}]
     # a family with a swapped pair of configurations: both join tasks are requested, one after the other, on the one data directory
     pair = [i for i, v in enumerate(variants) if v.get('swap_join')]
     if len(pair) >= 2 and rng.random() < 0.8:
